@@ -27,7 +27,7 @@ ASSUMPTIONS = [
 ]
 MAXTASKS = 40
 
-EXPR = "pyscript.a == '1'"
+EXPR = "pyscript.a in ['1', '2']"
 STATE = [None, "expr", "any"]
 TIME = [None, "future", "past", "period"]
 EVENT = [None, "plain", "filter", "raising"]
@@ -36,7 +36,7 @@ TIMEOUT = [None, 0, 4.5]
 HOLD = [None, 10.5]
 CHECKNOW = [None, False]
 
-ACTIONS = ["T", "F", "EV1", "EV2", "MQ", "WH", "ADV2", "ADV4", "KILL", "KILLU"]
+ACTIONS = ["T", "T2", "F", "EV1", "EV2", "MQ", "WH", "ADV2", "ADV4", "KILL", "KILLU"]
 HORIZON = 30.0
 
 
@@ -49,11 +49,15 @@ def configs(tier):
         cns = CHECKNOW if st == "expr" else [None]
         for hold, cn in itertools.product(holds, cns):
             out.append((st, tm, ev, ot, to, hold, cn))
+    # conditions that cannot even be set up (syntax error in a filter expression) next to ones that can: the call raises
+    # at once and must leave nothing behind
+    extra = [(st, None, ev, ot, None, None, None) for st in (None, "expr", "any") for ev in (None, "plain", "syntax")
+             for ot in (None, "mqtt", "webhook", "mqtt_syntax", "webhook_syntax") if "syntax" in (ev or "") + (ot or "")]
     if tier == "quick":
         # quick: every pair of trigger kinds, at most two kinds at once; timeout/hold/check_now varied only with one kind
         out = [c for c in out if sum(x is not None for x in c[:4]) <= 2
                and (sum(x is not None for x in c[:4]) == 1 or (c[4] in (None, 4.5) and c[5] is None and c[6] is None))]
-    return out
+    return out + extra
 
 
 def wait_args(cfg):
@@ -75,10 +79,16 @@ def wait_args(cfg):
         a.append('event_trigger=["ev1", "arg == 1"]')
     elif ev == "raising":
         a.append('event_trigger=["ev1", "undefined_func(arg)"]')
+    elif ev == "syntax":
+        a.append('event_trigger=["ev1", "arg ==== 1"]')
     if ot == "mqtt":
         a.append('mqtt_trigger="t/a"')
     elif ot == "webhook":
         a.append('webhook_trigger="hookW"')
+    elif ot == "mqtt_syntax":
+        a.append('mqtt_trigger=["t/a", "payload ==== 1"]')
+    elif ot == "webhook_syntax":
+        a.append('webhook_trigger=["hookW", "payload ==== 1"]')
     if to is not None:
         a.append(f"timeout={to}")
     if hold is not None:
@@ -126,6 +136,8 @@ def reference(cfg, init_true, pre, hist):
     itself, len(hist) = during the final horizon).  Times never tie between timers and events (grid), so the
     order only arbitrates between things caused by the call itself and between history actions at one instant."""
     st, tm, ev, ot, to, hold, cn = cfg
+    if "syntax" in (ev or "") + (ot or ""):
+        return ("exc", 0.0, "SyntaxError")
     cands = []
     t = 0.0
     a = "1" if init_true else "0"
@@ -140,6 +152,11 @@ def reference(cfg, init_true, pre, hist):
             if a != "1":
                 a = "1"
                 evals.append((t, True, ("pyscript.a", "1"), i))
+        elif act == "T2":
+            # a second value for which the expression is true as well: a further true evaluation
+            if a != "2":
+                a = "2"
+                evals.append((t, True, ("pyscript.a", "2"), i))
         elif act == "F":
             if a != "0":
                 a = "0"
@@ -235,6 +252,9 @@ def run_impl(cfg, legacy, init_true, pre, hist):
             elif act == "T":
                 a = "1"
                 hs.async_set("pyscript.a", "1", {})
+            elif act == "T2":
+                a = "2"
+                hs.async_set("pyscript.a", "2", {})
             elif act == "F":
                 a = "0"
                 hs.async_set("pyscript.a", "0", {})
@@ -354,6 +374,8 @@ def run_shard(shard):
                 continue
             if cfg[2] is None and pre == "EV1":
                 continue
+            if "syntax" in (cfg[2] or "") + (cfg[3] or "") and init_true and cfg[0] == "expr":
+                continue  # an immediate state return and the set-up error compete: which one wins is not specified
             i += 1
             if i % per != k:
                 continue
